@@ -277,6 +277,9 @@ fn outcome(result: &Result<Value>, out: &mut String) {
                 Error::ValueOutOfBounds(v, _) => ("ValueOutOfBounds", Some(v), None),
                 Error::DivisionByZero => ("DivisionByZero", None, None),
                 Error::InvalidSymbol(n) => ("InvalidSymbol", None, Some(n)),
+                // an error variant added later must not break the instrumented build
+                #[allow(unreachable_patterns)]
+                _ => ("Other", None, None),
             };
             let _ = write!(out, "{{\"ok\":false,\"variant\":\"{variant}\",\"msg\":");
             text(&e.to_string(), out);
